@@ -344,7 +344,7 @@ def jobs(tier):
                 shapes += [(2, 1, 2)]
             for (n_ids, n_obs, n_t) in shapes:
                 if kind.endswith('kde') and n_sim >= 3 and \
-                        n_ids * n_obs * n_t > (1 if q else 2):
+                        n_ids * n_obs * n_t > (1 if q or n_sim >= 4 else 2):
                     continue
                 out.append(('filter', 'case_filter', dict(
                     kind=kind, n_ids=n_ids, n_obs=n_obs, n_times=n_t,
@@ -360,6 +360,8 @@ def jobs(tier):
         for (pat, n_ids, n_obs, n_t) in pats:
             if kind.endswith('kde') and n_ids * n_t > 4:
                 continue
+            if kind == 'mixture' and n_ids * n_t * n_obs > 6:
+                continue      # (> 6 cells x 4 simulated: over the budget)
             out.append(('missing', 'case_missing', dict(
                 kind=kind, pattern=pat, n_ids=n_ids, n_obs=n_obs,
                 n_times=n_t, n_sim=n_sim), {'max_paths': 128}))
